@@ -221,7 +221,7 @@ struct Out {
 fn run_doc(out: &mut Out, si: usize, sdl: &str, tsdoc: &TypeSystemDocument, schema: &Schema<Cow<str>, Pos>, text: &str, stream: &str) {
     let doc: OperationDocument = match load_operation(text) { Ok(d) => d, Err(_) => { *out.stats.entry("documents_not_loaded").or_insert(0) += 1; return; } };
     let errs = check_operation(schema, &doc);
-    if !errs.is_empty() && stream == "valid" { *out.stats.entry("documents_rejected_by_check").or_insert(0) += 1; return; }
+    if !errs.is_empty() && (stream == "valid" || stream == "systematic") { *out.stats.entry("documents_rejected_by_check").or_insert(0) += 1; return; }
     let checked = errs.is_empty();
     out.docs.push(ast_coq::opdoc(&doc));
     let di = out.docs.len() - 1;
@@ -248,8 +248,11 @@ fn run_doc(out: &mut Out, si: usize, sdl: &str, tsdoc: &TypeSystemDocument, sche
     if let Err(m) = &printed {
         if checked { out.direct.push(json!({"what": format!("print_types_for_operation_document panics on a document check accepts: {m}"), "classes": ["panic:".to_string() + m], "schema": sdl, "doc": text})); }
     }
-    out.terms.push((si, di, format!("CDoc {{S}} {{D}} {}", ops_term)));
-    out.descr.push(json!({"kind": "document", "stream": stream, "schema": sdl, "doc": text, "emitted": text_out, "classes": []}));
+    if !out.c02 {
+        // the whole-module tie belongs to C01; the C02 run keeps the per-definition ties only
+        out.terms.push((si, di, format!("CDoc {{S}} {{D}} {}", ops_term)));
+        out.descr.push(json!({"kind": "document", "stream": stream, "schema": sdl, "doc": text, "emitted": text_out, "classes": []}));
+    }
 
     // (i)+(ii) per definition: SelectionTree and TSType through the hooks
     let fragment_definitions: HashMap<&str, &FragmentDefinition> = doc.definitions.iter().filter_map(|d| match d {
@@ -339,7 +342,39 @@ fn main() {
         run_doc(&mut out, si, sdl, &tsdoc, &ts, text, "corpus");
     }
 
-    let (n_schemas, n_docs) = if thorough { (400, 12) } else { (50, 6) };
+    // systematic small scope over the corpus schema: every ordered pair of `a`-selections drawn from
+    // {outer condition} x {sub-selection with inner condition}, the second one plain / in an inline
+    // fragment / in a fragment spread (thorough: all pairs; quick: a seeded sample)
+    {
+        let (sdl, _) = corpus()[0];
+        let tsdoc = load_schema(sdl).expect("corpus schema loads");
+        let term = ast_coq::tsdoc(&tsdoc);
+        let si = out.schemas.iter().position(|t| t == &term).unwrap();
+        let ts = to_type_system(&tsdoc);
+        let conds = ["", " @skip(if: $v)", " @include(if: $w)", " @skip(if: true)"];
+        let subs = ["{ x }", "{ y }", "{ x @skip(if: $v) }", "{ y @skip(if: $v) }", "{ x @include(if: $w) y }", "{ id a { x @skip(if: $w) } }", "{ k: x @skip(if: $v) }", "{ __typename ... on A @include(if: $v) { y } }"];
+        let mut atoms: Vec<String> = vec![];
+        for c in conds { for sb in subs { atoms.push(format!("a{c} {sb}")); } }
+        let mut n_sys = 0usize;
+        for (i, a1) in atoms.iter().enumerate() {
+            for (j, a2) in atoms.iter().enumerate() {
+                for w in 0..3 {
+                    if !thorough && !rng.chance(1, 40) { continue; }
+                    let _ = (i, j);
+                    let text = match w {
+                        0 => format!("query Q($v: Boolean!, $w: Boolean!) {{ {a1} {a2} }}"),
+                        1 => format!("query Q($v: Boolean!, $w: Boolean!) {{ {a1} ... on Query {{ {a2} }} }}"),
+                        _ => format!("query Q($v: Boolean!, $w: Boolean!) {{ ...F {a1} }}\nfragment F on Query {{ {a2} }}"),
+                    };
+                    run_doc(&mut out, si, sdl, &tsdoc, &ts, &text, "systematic");
+                    n_sys += 1;
+                }
+            }
+        }
+        out.stats.insert("systematic_documents", n_sys);
+    }
+
+    let (n_schemas, n_docs) = if thorough { (300, 10) } else { (36, 5) };
     for _ in 0..n_schemas {
         let s = gen_schema(&mut rng, &SchemaCfg { descriptions: false, custom_directives: true });
         let sdl = s.render();
@@ -361,7 +396,7 @@ fn main() {
     }
 
     // shards: each defines the schemas and documents its cases use
-    let shard_size = if thorough { 120usize } else { 60usize };
+    let shard_size = if thorough { 150usize } else { 50usize };
     fs::create_dir_all(&args.out).unwrap();
     let holds = if c02 { "holds2" } else { "holds1" };
     let mut k = 0;
